@@ -211,7 +211,7 @@ Definition ns5 (ba on: kv) : dialect_ns :=
    ("no_copy_collections", KMissing)].
 Definition fd_toml : dialect_ns := ns5 KMissing (KBool true).       (* TOMLDialect.omit_none = True *)
 Definition E_fm : env :=
-  [mkC "A" None [mkF "x" (Some "a_x") TInt; mkF "y" None (TOpt TInt)] None (Some false) true].
+  [mkC "A" None [mkF "x" (Some "a_x") TInt; mkF "y" None (TOpt TInt)] None (Some false) false false false true].
 Definition v_fm := VObj "A" [("x", VInt 1); ("y", VNone)].
 
 Lemma format_priority_witness :
@@ -224,8 +224,8 @@ Proof. split; vm_compute; reflexivity. Qed.
 (* non-vacuity: TOML's built-in omit_none reaches the codec through the translated merge although the user dialect
    only asks for aliases; all three entry points give the same document *)
 Definition E_fx : env :=
-  [mkC "A" None [mkF "x" (Some "a_x") TInt; mkF "y" None (TOpt TInt)] None None true;
-   mkC "B" None [mkF "l" None (TList (TData "A")); mkF "m" None (TDict (TData "A"))] None None true].
+  [mkC "A" None [mkF "x" (Some "a_x") TInt; mkF "y" None (TOpt TInt)] None None false false false true;
+   mkC "B" None [mkF "l" None (TList (TData "A")); mkF "m" None (TDict (TData "A"))] None None false false false true].
 Definition v_fx := VObj "B" [("l", VList [VObj "A" [("x", VInt 1); ("y", VNone)]]);
                              ("m", VDict [("k", VObj "A" [("x", VInt 2); ("y", VInt 3)])])].
 Lemma format_example :
